@@ -160,6 +160,23 @@ pub enum WriteOutcome {
 
 /// Runs the real writer on a plain Vec sink.
 pub fn write_file(cfg: &FileCfg, entries: &[(Vec<u8>, Vec<u8>)]) -> WriteOutcome {
+    // every other file goes through the other public route: a borrowed sink and Writer::finish
+    if entries.len() % 2 == 1 {
+        let mut sink: Vec<u8> = Vec::new();
+        let mut w = cfg.builder().build(&mut sink);
+        for (i, (k, v)) in entries.iter().enumerate() {
+            match catch(|| w.insert(k, v)) {
+                Ok(Ok(())) => {}
+                Ok(Err(e)) => return WriteOutcome::Err(io_class(&e)),
+                Err(_) => return WriteOutcome::PanicInsert(i),
+            }
+        }
+        return match catch(move || w.finish()) {
+            Ok(Ok(())) => WriteOutcome::File(sink),
+            Ok(Err(e)) => WriteOutcome::Err(io_class(&e)),
+            Err(_) => WriteOutcome::PanicFinish,
+        };
+    }
     let mut w = cfg.builder().build(Vec::new());
     for (i, (k, v)) in entries.iter().enumerate() {
         match catch(|| w.insert(k, v)) {
